@@ -24,6 +24,8 @@ func checkC13(c *Ctx) {
 
 	c.Rule("C13.7", "the recorded track is written as a valid file: per-event encoder table and running-status protocol of the writer (= C01.1, C01.2), deltas stored unchanged by Track.Add (= C01.7)", 10)
 	c.include(checkC01, map[string]string{"C01.1": "C13.7", "C01.2": "C13.7", "C01.7": "C13.7"})
+	c.Rule("C13.8", "what the recording callback is handed is the wire message: the conversion stage of ListenTo is the identity on every decoder output shape (= C04.5) — a padded or re-encoded message would be stored, written and read back as different events", 17)
+	c.include(checkC04, map[string]string{"C04.5": "C13.8"})
 
 	trackT := p.namedType("smf", "Track")
 	mtT := p.namedType("smf", "MetricTicks")
